@@ -108,7 +108,14 @@ impl<R: BufRead> Iterator for Sequences<R> {
                     self.current_record += 1;
                     return Some(Sequence {
                         n: self.current_record - 1,
-                        id: record.id().to_string(),
+                        // bio splits FASTQ headers at the first blank only; the id is the
+                        // first word of the header, as for FASTA
+                        id: record
+                            .id()
+                            .split_whitespace()
+                            .next()
+                            .unwrap_or_default()
+                            .to_string(),
                         seq: record.seq().to_vec(),
                     });
                 }
